@@ -10,7 +10,7 @@ def sig(fl):
 CONF = {
     "id": "C08", "family": "LoadAware",
     "mc": [
-        {"module": "MC_LoadAware", "cfg": "MC_quick.cfg", "timeout": 900},
+        {"module": "MC_LoadAware", "cfg": "MC_quick.cfg", "timeout": 900, "coverage": True},
         {"module": "MC_Threshold", "cfg": "MC_Threshold.cfg", "timeout": 900},
         {"module": "MC_LoadAware", "cfg": {"quick": None, "thorough": "MC_thorough_cfgs.cfg"}, "timeout": 1800},
         {"module": "MC_LoadAware", "cfg": {"quick": None, "thorough": "MC_thorough_2pods.cfg"}, "timeout": 1800},
